@@ -793,11 +793,45 @@ def _run(ctx, pool):
             else:
                 steps.append(mkstep((rng.choice(list(CALLS)), rng.choice(BASES5))))
         hs.append((rng.choice(inits), steps))
+    # CLI matrix (both tiers): every (CLI mode, hash kind) after every kind of prefix, from every initial state
+    prefixes = [[], [("content:C1", "none")], [("ext:noncanon", None)], [("ext:delete", None)], [("changes:CH2", "current")]]
+    n_cli = 0
+    for init in INITS:
+        for pre in prefixes:
+            for op in CLI_OPS:
+                for b in BASES5:
+                    hs.append((init, [mkstep(p) for p in pre] + [mkstep((op, b))]))
+                    n_cli += 1
+    # seeds of the metadata-fault stream: one call from every initial state, every API / mode, with and without base_hash
+    seed_ops = ["content:C1", "content:C2", "changes:CH1", "normalize", "atomic:C2", "cli-content:C1", "cli-changes:CH1"]
+    for init in INITS:
+        for op in seed_ops:
+            for b in ("none", "current"):
+                hs.append((init, [mkstep((op, b))]))
     csize = 40 if ctx.quick() else 250
     chunks = [(hs[i:i + csize], have_model) for i in range(0, len(hs), csize)]
+    meta_seeds = {}
     for summ in pool.imap_unordered(_hist_chunk, chunks):
         _merge(ctx, summ)
-    ctx.extra["histories"] = len(hs)
+        for init_name, st, mops in summ["meta"]:
+            meta_seeds[(init_name, st["op"], st["base"])] = mops
+    # metadata-fault stream: every occurrence of a chmod/fchmod/lchmod/utime/chown-like call of such a call fails with
+    # EPERM / EACCES / EROFS / ENOENT; the call is followed by the writer's RETRY with the very same base_hash.
+    # error => whole sandbox (bytes AND modes) unchanged; the retry must then behave as the register says (not E_HASH against
+    # the writer's own content)
+    fh = []
+    for (init_name, op, b), mops in sorted(meta_seeds.items()):
+        for name, occ in mops:
+            for e in META_ERRNOS.values():
+                first = {"op": op, "base": b, "fault": {"name": name, "occ": occ, "errno": e}}
+                fh.append((init_name, [first, {"op": op, "base": "same"}]))
+                fh.append((init_name, [{"op": "ext:C1", "base": None}, first, {"op": op, "base": "same"}]))
+    for summ in pool.imap_unordered(_hist_chunk, [(fh[i:i + 40], have_model) for i in range(0, len(fh), 40)]):
+        _merge(ctx, summ)
+    ctx.extra["histories"] = len(hs) + len(fh)
+    ctx.extra["cli_matrix_histories"] = n_cli
+    ctx.extra["metadata_fault_histories"] = {"seed_calls_with_a_metadata_op": len(meta_seeds), "faulted_histories": len(fh),
+                                             "metadata_ops_seen": sorted({n for m in meta_seeds.values() for n, _ in m})}
 
     # ---- two writers --------------------------------------------------------------------------------------------------
     merges = all_merges()
@@ -909,8 +943,10 @@ def _run(ctx, pool):
         "threads|processes). Histories: "
         + ("3000 random, length 1..5" if ctx.quick() else "exhaustive length<=4 over 18 ops (4 call kinds x 4 base kinds + 2 external) from "
            "an existing file, + 50000 random of length 5")
-        + " over 4 initial states (existing / absent / missing parent / non-canonical), op pool = 10 call kinds x {none,current,stale,future} + 6 "
-          "external modifications. Schedules: " + ("30 in-window + 30 outside sampled merges + model witness + 2 serial, 4 writer configs, threads; 7 with processes"
+        + " over 4 initial states (existing / absent / missing parent / non-canonical), op pool = 14 call kinds (execute x 3 modes, dry, "
+          "atomic_write_octave, CLI --content / --changes) x {none,current,stale,future,garbage} + 6 external modifications; + CLI matrix (4 "
+          "inits x 5 prefixes x 4 CLI ops x 5 hash kinds); + metadata-fault stream (every chmod-like call occurrence of 56 seed calls x "
+          "{EPERM,EACCES,EROFS,ENOENT}, followed by the retry with the same base_hash). Schedules: " + ("30 in-window + 30 outside sampled merges + model witness + 2 serial, 4 writer configs, threads; 7 with processes"
                                                    if ctx.quick() else "all 924 merges x 4 writer configs (threads) + 924 x 2 configs (processes)"))
 
 
